@@ -334,6 +334,7 @@ fn ref_parse(s: &str, mid: &str) -> Option<(String, String)> {
     if p.is_empty() || t.is_empty() { return None; }
     Some((p.to_string(), t.to_string()))
 }
+fn jopt(o: &Option<String>) -> String { match o { Some(s) => format!("{:?}", s), None => "null".to_string() } }
 fn cmd_names(maxlen: usize) -> i32 {
     std::panic::set_hook(Box::new(|_| {}));
     let alphabet = ['p', 't', '/', 's', 'é', '-'];
@@ -359,14 +360,14 @@ fn cmd_names(maxlen: usize) -> i32 {
                 let echo = got.clone();
                 let want_echo = want.as_ref().map(|(p, t)| format!("projects/{}{}{}", p, mid, t));
                 if got != want_echo {
-                    println!("WITNESS {{\"kind\":\"name\",\"property\":\"C18\",\"topic\":{},\"input\":{:?},\"accepted_as\":{:?},\"grammar_says\":{:?}}}", is_topic, s, got, want_echo);
+                    println!("WITNESS {{\"kind\":\"name\",\"property\":\"C18\",\"topic\":{},\"input\":{:?},\"accepted_as\":{},\"grammar_says\":{}}}", is_topic, s, jopt(&got), jopt(&want_echo));
                     return 1;
                 }
                 if let Some(e) = echo {
                     // the canonical echo is accepted and denotes the same resource
                     let again = if is_topic { TopicName::try_parse(&e).map(|x| x.to_string()) } else { SubscriptionName::try_parse(&e).map(|x| x.to_string()) };
                     if again.as_ref() != Some(&e) {
-                        println!("WITNESS {{\"kind\":\"name-echo\",\"property\":\"C18\",\"topic\":{},\"input\":{:?},\"echo\":{:?},\"echo_parsed\":{:?}}}", is_topic, s, e, again);
+                        println!("WITNESS {{\"kind\":\"name-echo\",\"property\":\"C18\",\"topic\":{},\"input\":{:?},\"echo\":{:?},\"echo_parsed\":{}}}", is_topic, s, e, jopt(&again));
                         return 1;
                     }
                 }
